@@ -251,6 +251,13 @@ func H_c15() {
 			verifAssume(g != "")
 		}
 	}
+	psFormat := verifParam("ps")
+	if psFormat != "" {
+		// plan-summary jobs: index-key names as the server prints them
+		for _, g := range verifHoles("L0", "G") {
+			verifAssumeWord(g)
+		}
+	}
 	repl := verifString("replacement")
 	prefix := verifString("eagerPrefix")
 	verifAssumeLiterals("L0")
@@ -274,6 +281,36 @@ func H_c15() {
 		verifAssert(!verifLeaks(r.text, g), "field-name-in-clear:"+verifItoa(i))
 	}
 	verifSameValues(r.out, off.out, verifClassMap("L0", "leaf"))
+	if psFormat != "" {
+		// the plan summary is the input text with every index-key name replaced by the pseudonym the
+		// same name gets in the filter, and nothing else changed
+		want := verifExpectPlanSummary(psFormat, verifHoles("L0", "G"), repl)
+		got := verifStrOf(verifKid(verifKid(r.out, "attr"), "planSummary"))
+		verifAssert(got == want, "plan-summary-renamed")
+	}
+}
+
+// verifExpectPlanSummary: format with %0 .. %9 standing for the i-th field name of the line and
+// %{name} for a fixed index-key name;
+// each is replaced by the documented pseudonym of that name.
+func verifExpectPlanSummary(format string, names []string, repl string) string {
+	out := ""
+	for i := 0; i < len(format); i++ {
+		if format[i] == '%' && i+1 < len(format) && format[i+1] >= '0' && format[i+1] <= '9' {
+			out += verifPseudoName(names[int(format[i+1]-'0')], repl)
+			i++
+			continue
+		}
+		if format[i] == '%' && i+1 < len(format) && format[i+1] == '{' {
+			// %{name}: an index key with a fixed name (e.g. _id); renamed like any other field name
+			j := strings.Index(format[i:], "}")
+			out += verifPseudoName(format[i+2:i+j], repl)
+			i += j
+			continue
+		}
+		out += format[i : i+1]
+	}
+	return out
 }
 
 // verifRunTreeQuiet: as verifRunTree without assertions / emission (reference run).
